@@ -24,7 +24,9 @@ DRIVER = "files_driver.py"
 SHARD = 120
 MB = 1 << 20
 RULE = ("one case = one end-to-end trip (input + output file handler, record -> save on one of the three cassettes -> "
-        "fetch -> replay at different paths, the replayed path possibly holding a file already), one sequence (several "
+        "fetch -> replay at different paths, the replayed path possibly holding a file already; contents include files "
+        "that are themselves complete encodings: zlib / gzip / raw deflate / bz2 / xz / zip blobs, base64 / base32 / "
+        "hex / quoted-printable texts, json envelopes, pickles, byte-order marks), one sequence (several "
         "recordings replayed one after another / twice into the same path; recordings made one after another of ONE "
         "recorded path whose file is rewritten in between), one history (one operation handing one path to the input "
         "and output file handlers 2-5 times, the file rewritten between interceptions with other bytes of the same / "
@@ -1026,7 +1028,7 @@ def search_harder(rng, bad_cases):
 
 MANIFEST = dict(
     design_ref='6/C20',
-    text='Coq theorems for every byte string, path, way of passing the path (keyword / position), file-system and quoted-printable oracle: record -> cassette -> replay writes exactly the recorded bytes at the path of the REPLAYED call (input handler) / yields a holder with exactly those bytes (output handler), also when the content is the placeholder text; above the limit the placeholder is recorded and the file is never opened; the size test is the exact rational comparison size > limit*2^20 with the three boundary corollaries and int(float(env)) for the environment variable; a concrete RFC 4648 base64 codec with b64dec(b64enc b) = b, alphabet and length laws. Model tied to /repo on every run: the real handlers are driven end to end through the real TapeRecorder and the three real cassettes (in-memory, file, S3 over a fake bucket) on contents {empty, all 256 byte values, newlines, placeholder and near-placeholder texts, random binary, multi-MB} x sizes limit-1/limit/limit+1 x explicit float / int / environment limits x keyword / position x static / instance, and at unit level (base64 text, size check, path lookup); Coq compares with the model by vm_compute; the direct predicate (restored bytes == original at the replayed path, holder content == original, above-limit files never opened and recorded as the placeholder) searches for a failing input. Histories on one path (theorems C20_history_input/_output: the k-th recording of a path is made of what the file holds at the k-th interception): the same recorded path intercepted repeatedly - across recordings and 2-5 times inside one operation, by input and output handlers in every order - with the file rewritten in between (same length, modification time stamped / kept / clock, in place / replaced).',
+    text='Coq theorems for every byte string, path, way of passing the path (keyword / position), file-system and quoted-printable oracle: record -> cassette -> replay writes exactly the recorded bytes at the path of the REPLAYED call (input handler) / yields a holder with exactly those bytes (output handler), also when the content is the placeholder text; above the limit the placeholder is recorded and the file is never opened; the size test is the exact rational comparison size > limit*2^20 with the three boundary corollaries and int(float(env)) for the environment variable; a concrete RFC 4648 base64 codec with b64dec(b64enc b) = b, alphabet and length laws. Model tied to /repo on every run: the real handlers are driven end to end through the real TapeRecorder and the three real cassettes (in-memory, file, S3 over a fake bucket) on contents {empty, all 256 byte values, newlines, placeholder and near-placeholder texts, random binary, multi-MB, and 48 contents that are themselves valid encodings (deflated / archived blobs at several levels and framings incl. truncated, bad-checksum and concatenated streams, base64 family and other transfer encodings, json / jsonpickle-looking / serialized-envelope texts, pickles, byte-order marks) - the bytes come back as recorded whatever they spell} x sizes limit-1/limit/limit+1 x explicit float / int / environment limits x keyword / position x static / instance, and at unit level (base64 text, size check, path lookup); Coq compares with the model by vm_compute; the direct predicate (restored bytes == original at the replayed path, holder content == original, above-limit files never opened and recorded as the placeholder) searches for a failing input. Histories on one path (theorems C20_history_input/_output: the k-th recording of a path is made of what the file holds at the k-th interception): the same recorded path intercepted repeatedly - across recordings and 2-5 times inside one operation, by input and output handlers in every order - with the file rewritten in between (same length, modification time stamped / kept / clock, in place / replaced).',
     note='Trusted: Coq kernel + vm_compute; hand-written model; correspondence harness (fake bucket behind the real S3BasicFacade, journalling wrapper around open, substituted os.path.getsize for sizes that cannot be materialised); jsonpickle\'s coding of bytes is an oracle (model A) exercised end to end; float comparison exact for sizes < 2^53.',
     technique='Coq proof (lia + finite sweep over the 64 base64 digits, exact rationals for the limit) + model/implementation correspondence by vm_compute + direct predicate end to end',
 )
